@@ -13,7 +13,7 @@ from units import BVUnit
 
 P = ["C09", "C17"]
 import os
-SOLVER = os.environ.get("JPV_ENC_SOLVER", "").split() if os.environ.get("JPV_ENC_SOLVER") else []
+SOLVER = os.environ.get("JPV_ENC_SOLVER", "--sat-solver cadical").split()
 G1A, G2A = "Affine<Fq, Fr, g1_b_coeff_var>", "Affine<Fq2, Fr, g2_b_coeff_var>"
 
 
